@@ -419,3 +419,11 @@ Definition c12_case (c : (bool * N) * list (step * action) * plan * (bytes * N) 
   | (cross, fm, flt, pl, (oldb, mode), ref) =>
       obs_c oldb ref (run (mkCfg cross (fm_of_N fm)) (sched_of flt) pl (mkFile oldb mode))
   end.
+
+(* the same without the hook trace (runs under a file size limit: which of encode / flush hits the limit
+   depends on the 4096-byte buffering inside the encoder, the outcome does not) *)
+Definition c12_case_nt (c : (bool * N) * list (step * action) * plan * (bytes * N) * bytes) : list N :=
+  match c12_case c with
+  | cls :: present :: mode :: tp :: nh :: rest => cls :: present :: mode :: tp :: skipn (N.to_nat nh) rest
+  | l => l
+  end.
